@@ -114,7 +114,9 @@ pub const HOSTILE: &[&str] = &[
     "a\u{303}", "ё", "е\u{308}", "Ё", "Е\u{308}", "й", "и\u{306}", "\u{301}", "\u{308}", "\u{303}", "\u{327}", "ǅ", "ǆ",
     "Ǆ", "𝐀", "İ", "ı", "ſ", "Σ", "ς", "σ", "ﬁ", "Ⓐ", "ⓐ", "ª", "²", "½", "٣", "漢", "字", "😀", "\u{202e}", "\u{feff}",
     "\u{7f}", "\u{85}", "д", "Д", "и", "в", "на", "the", "to", "of", "der", "für", "le", "à", "el", "de", "o", "не",
-    "metal", "shirt", "t-shirt", "wi-fi", "tshirt", "wifi", "x", "T", "ü", "Ü", "u\u{308}", "ÿ", "Ÿ",
+    "metal", "shirt", "t-shirt", "wi-fi", "tshirt", "wifi", "x", "T", "ü", "Ü", "u\u{308}", "ÿ", "Ÿ", "\u{2028}", "\u{2029}",
+    "\u{3000}", "\u{ff0c}", "\u{2010}", "\u{2012}", "\u{2013}", "\u{2014}", "\u{ad}", "\u{1680}", "\u{180e}", "\u{2060}", "\u{ff21}", "\u{ff41}",
+    "\u{1e9e}", "\u{130}x", "ǈ", "ǋ", "\u{2160}", "\u{2170}", "\u{24b6}", "rtx4090ti", "a4b", "3d", "\u{0}\u{0}", "\u{301}\u{301}", "e\u{301}\u{308}",
 ];
 
 pub fn hostile(rng: &mut Rng, maxlen: usize) -> String {
@@ -154,6 +156,10 @@ pub fn any_word(rng: &mut Rng, lang: &str) -> String {
             let mut w = rand_word(rng, &digits, 1, 4);
             if rng.chance(1, 2) {
                 w.push_str(&rand_word(rng, &alpha, 1, 3));
+            }
+            if rng.chance(1, 3) {
+                // product codes: letters, digits, letters ("rtx4090ti")
+                w = format!("{}{}{}", rand_word(rng, &alpha, 1, 4), w, rand_word(rng, &digits, 0, 3));
             }
             w
         }
@@ -198,16 +204,20 @@ pub fn realistic_title(rng: &mut Rng, lang: &str, corpus: &[Rec]) -> String {
 /// Store records with unique ids and (optionally) pairwise distinct ratings.
 pub fn rand_recs(rng: &mut Rng, lang: &str, n: usize, distinct_ratings: bool, corpus: &[Rec]) -> Vec<Rec> {
     let mut ratings: Vec<usize> = (0..n).map(|i| if distinct_ratings { i * 7 + 1 + rng.below(7) } else { rng.below(4) }).collect();
+    scale_ratings(rng, &mut ratings);
     rng.shuffle(&mut ratings);
+    let odd = rng.chance(1, 3);
+    let mut idrng = rng.clone();
     (0..n)
         .map(|i| {
+            let id = if odd { odd_id(&mut idrng, i) } else { 100 + i * 3 };
             // one title in twenty is a long listing of 21-40 words (beyond the 20-slot match buffers)
             let t = match rng.below(20) {
                 0 => long_title(rng, lang),
                 1 | 2 => shaped_title(rng, lang),
                 _ => realistic_title(rng, lang, corpus),
             };
-            (100 + i * 3, t, ratings[i])
+            (id, t, ratings[i])
         })
         .collect()
 }
@@ -355,12 +365,26 @@ pub fn related_query(rng: &mut Rng, lang: &str, lobj: &Lang, title: &str) -> Str
 }
 
 pub fn rand_limit(rng: &mut Rng) -> usize {
-    match rng.below(8) {
+    match rng.below(10) {
         0 => 0,
         1 => 1,
         2 => 65536,
         3 => 10,
+        4 => *rng.pick(&[13, 16, 64, 100, 255, 256, 1000, 4096, 6553, 6554, 32768, 65535]),
+        5 => rng.range(13, 4096),
         _ => rng.below(13),
+    }
+}
+
+/// Record ids are arbitrary `usize` values: mostly small, sometimes 0, beyond 2^32 or near usize::MAX.
+/// `i` keeps ids of one store distinct.
+pub fn odd_id(rng: &mut Rng, i: usize) -> usize {
+    match rng.below(8) {
+        0 => (1usize << 32) + i * 3,
+        1 => usize::MAX - i,
+        2 => (1usize << 31) - 1 - i,
+        3 => i * 65536,
+        _ => 100 + i * 3,
     }
 }
 
